@@ -47,7 +47,7 @@ class OrigMotl(Motl):
         return self.df.loc[:, feature_id].unique()
 
     def get_motl_subset(self, feature_values, feature_id="tomo_id", return_df=False, reset_index=True):
-        if isinstance(feature_values, list):
+        if isinstance(feature_values, (list, np.ndarray)):
             feature_values = np.array(feature_values)
         else:
             feature_values = np.array([feature_values])
